@@ -91,6 +91,7 @@ class FormWorld:
             warnings=Obj("warnings", warn=self._warn),
             np=Obj("numpy", ndarray=NdArray, prod=lambda x, dtype=None: __import__("math").prod(x), ndindex=lambda *shape: list(itertools.product(*[range(d) for d in (shape[0] if len(shape) == 1 and isinstance(shape[0], (tuple, list)) else shape)]))),
         )
+        ip.pytype_alias[ip.overrides["str"]] = str
         ip.overrides.pop("Index", None)
         ip.overrides.pop("indices", None)
         ip.overrides.pop("as_ufl", None)
@@ -98,6 +99,7 @@ class FormWorld:
         ip.on_instantiate = self._on_instantiate
         self.gdim = gdim
         self._cells = {}
+        self._n_objects = 0
 
     # ------------------------------------------------------------------ stdlib / builtins
     def _warn(self, *a, **k):
@@ -208,7 +210,13 @@ class FormWorld:
             return self.ctx.tm.get(qualname).cls
         return self.prog.get_class(qualname)
 
+    def _serial(self, o):
+        self._n_objects += 1
+        o.attrs["_serial"] = self._n_objects
+        return o
+
     def _on_instantiate(self, o, cls):
+        self._serial(o)
         if cls.is_subclass_of("Mesh") or cls.is_subclass_of("MeshView"):
             # the @attach_ufl_id decorator: ids are passed explicitly in this model
             def init_id(uid):
@@ -251,7 +259,7 @@ class FormWorld:
         sob.attrs["__class__"] = None
         e.attrs["sobolev_space"] = sob
         e.attrs["__contains_in__"] = True
-        return e
+        return self._serial(e)
 
     def mesh(self, ufl_id, degree=1, cellname="triangle", gdim=None):
         ce = self.element("P", degree, (gdim or self.gdim,), self.cell(cellname))
@@ -294,7 +302,7 @@ class FormWorld:
         k = self.K(clsname)
         o = Obj(k.name, __class__=k, ufl_operands=tuple(operands), _hash=None)
         o.attrs.update(attrs)
-        return o
+        return self._serial(o)
 
     def integral(self, integrand, integral_type, mesh, subdomain_id="everywhere", metadata=None, subdomain_data=None, extra=None):
         md = self.ip.new_dict()
